@@ -10,7 +10,7 @@ from typing import Any, Dict, List, Optional
 from .loader import AnalysisError, Repo
 
 VERIF = os.path.dirname(os.path.dirname(os.path.abspath(__file__)))
-EVID_DIR = os.path.join(VERIF, "evidence")
+EVID_DIR = os.environ.get("PPSA_EVIDENCE_DIR") or os.path.join(VERIF, "evidence")
 REPLAY_DIR = os.path.join(EVID_DIR, "replay")
 KNOWN_FILE = os.path.join(VERIF, "known_findings.json")
 
